@@ -58,6 +58,36 @@ partial def parseProto (j : Json) : Except String TypeProto := do
   | [.str "o", t] => do pure (.opt (← parseProto t))
   | _ => throw "bad proto"
 
+def parseSDim (j : Json) : Except String SDim :=
+  match j with
+  | .null => pure .none
+  | .str s => pure (.str s)
+  | .num _ => do let n ← fromJson? (α := Nat) j; pure (.int n)
+  | _ => throw "bad simple dim"
+
+def parseSimple (j : Json) : Except String SimpleShape :=
+  match j with
+  | .null => pure none
+  | .arr a => do let ds ← a.toList.mapM parseSDim; pure (some ds)
+  | _ => throw "bad simple shape"
+
+/-- `["shape", s]` = a `Shape` object, `["simple", s]` = anything else (tuple / list / `None`). -/
+def parseArg (j : Json) : Except String ShapeArg := do
+  let a ← fromJson? (α := Array Json) j
+  match a.toList with
+  | [.str "shape", s] => do pure (.shape (← parseShape s))
+  | [.str "simple", s] => do pure (.simple (← parseSimple s))
+  | _ => throw "bad shape argument"
+
+def sdimJ : SDim → Json
+  | .int n => toJson n
+  | .str s => Json.str s
+  | .none => Json.null
+
+def simpleJ : SimpleShape → Json
+  | none => Json.null
+  | some ds => Json.arr (ds.map sdimJ).toArray
+
 def dimJ : Natural → Json
   | .const n => toJson n
   | .unk l => if l = "" then Json.null else Json.str l
@@ -109,6 +139,27 @@ def handleE (req : Json) : Except String Json := do
         | none => Json.str "ShapeError"
         | some c => Json.arr #[shapeJ c]))
       pure (Json.mkObj [("bc", Json.arr out.toArray)])
+  | "bcs" =>
+      -- Shape.broadcast / can_broadcast with the operand in a given spelling: items [self, arg]
+      let items ← (← req.getObjValAs? (Array Json) "items").toList.mapM (fun j => do
+        let a ← fromJson? (α := Array Json) j
+        match a.toList with
+        | [s, o] => do pure ((← parseShape s), (← parseArg o))
+        | _ => throw "bad item")
+      let out := items.map (fun (s, o) =>
+        Json.mkObj [("bc", match broadcastArg s o with
+                           | none => Json.str "ShapeError"
+                           | some c => Json.arr #[shapeJ c]),
+                    ("can", toJson (canBroadcast s o))])
+      pure (Json.mkObj [("bcs", Json.arr out.toArray)])
+  | "rank" =>
+      let ss ← (← req.getObjValAs? (Array Json) "shapes").toList.mapM parseShape
+      pure (Json.mkObj [("rank", Json.arr (ss.map (fun x => optJ (fun (n : Nat) => toJson n) (Shape.maybeRank x))).toArray)])
+  | "simple" =>
+      -- Shape.from_simple(x).to_simple()
+      let ss ← (← req.getObjValAs? (Array Json) "shapes").toList.mapM parseSimple
+      pure (Json.mkObj [("simple", Json.arr (ss.map (fun x =>
+        Json.arr #[simpleJ (Shape.toSimple (Shape.fromSimple x))])).toArray)])
   | "rt" =>
       let ts ← (← req.getObjValAs? (Array Json) "types").toList.mapM parseTy
       let out := ts.map (fun t =>
